@@ -23,6 +23,10 @@ CHECKS = {
          "Exploration: thousands of random terminating programs over the core forms evaluated form by form on one interpreter and on the reference evaluator; define-sugar flipped and every call routed through apply must give identical outcomes.",
          "Trusted: refeval.rs (reference evaluator with unit tests from R7RS examples), the generator's typing discipline. Programs whose integers leave i32 are outside the class (counted).",
          "DESIGN.md §5 C01"),
+ "C03": ("stateful operation histories (proptest choice sequences interpreted as a state machine) against the store model of the reference evaluator + identity-partition check on Rc addresses",
+         "Exploration: thousands of histories of definitions, assignments, closure creations/calls and vector operations with aliasing through variables, arguments, lists, vectors and captured references; every form's value is compared with the store model and the partition of vector-valued variables into identity classes with the model's.",
+         "Trusted: refeval.rs store model. Cycles through vectors are never created.",
+         "DESIGN.md §5 C03"),
  "C05": ("exhaustive nesting family (every derived form in every sub-form position of every derived form) + random type-directed programs with ticking sub-forms against the reference evaluator's direct R7RS semantics",
          "Exploration: 576 exhaustive nestings plus thousands of random programs; value and order/multiplicity of evaluation (tick trace) per form.",
          "Trusted: refeval.rs. Known finding: unhygienic templates capture user variables x/temp/atom-key (attributed by a renaming experiment, avoided by construction in 7/8 of the random cases).",
@@ -31,6 +35,18 @@ CHECKS = {
          "Exploration / fault enumeration: every kind x context skeleton with 48 (thorough 400) random embeddings; the faulting form must yield the error kind, keep the effects completed before it, and later forms must evaluate normally.",
          "Trusted: refeval.rs error semantics; error kinds are matched through the public ErrorData/LogicError variants.",
          "DESIGN.md §5 C08"),
+ "C11": ("per-procedure random argument tuples inside the documented domain + exhaustive c[ad]r on all tree shapes of depth <= 3 + random compositions; oracle: reference list library (value, error, tick trace of the procedure argument)",
+         "Exploration: 22 sub-checks (one per procedure family) x 300 (thorough 3000) argument tuples, exhaustive c[ad]r shapes (thorough), compositions; value, error-or-not and the order/multiplicity of calls to the procedure argument.",
+         "Trusted: refeval.rs list primitives (R7RS / minischeme definitions). memq is exercised on atoms only; map/for-each with one list.",
+         "DESIGN.md §5 C11"),
+ "C12": ("exhaustive enumeration of import-set terms (depth <= 2, thorough 3) over a native 4-export library, 2- and 3-set declarations; oracle: import-set algebra model; determinism across fresh threads",
+         "Exploration, exhaustive up to depth 2 (strided sample in quick when large): every admissible only/except subset, renaming (swaps, chains, prefix-like targets) and prefix; the root frame after the import must hold exactly the model's names and values, identically on three fresh interpreters.",
+         "Trusted: the 20-line algebra model; the bare interpreter's root frame is empty before the import.",
+         "DESIGN.md §5 C12"),
+ "C14": ("exhaustive small-scope enumeration of dependency graphs x node statuses x import histories, libraries as files and as registered sources; oracle: graph reachability/cycle model + self-differential against a fresh interpreter; watchdog for termination",
+         "Exploration, exhaustive on 1-2 libraries (3 sampled in thorough): every graph, every status assignment, every history of <= 3 attempts; each attempt's outcome class must be admitted by the graph, equal the outcome on a fresh interpreter and terminate; libraries must be found relative to the program directory.",
+         "Trusted: the reachability model; temp directories under the system temp dir are created and removed by the run.",
+         "DESIGN.md §5 C14"),
  "C15": ("the C08 fault programs rendered with random multi-line layouts whose token/form extents are recorded by the renderer; oracle: reported location inside the failing form / offending token; stray and missing parentheses for syntax locations",
          "Exploration: 80 kind x context x (with/without derived forms) skeletons with random layouts (LF/CRLF, comments, indentation, preceding forms); every located error is checked against the extent of the failing form and, for unbound/non-procedure faults, of the offending token.",
          "Trusted: the renderer's cursor arithmetic (same convention as the lexer: column advances per character, LF resets). Known findings: locations taken from bundled macro templates / base.sld.",
